@@ -33,16 +33,22 @@ func ptr[T any](v T) *T { return &v }
 
 // Table of concrete data caveats. Fresh objects on every call.
 var Table = []func() macaroon.Caveat{
-	0:  func() macaroon.Caveat { return &flyio.Organization{ID: 1, Mask: resset.ActionAll} },
-	1:  func() macaroon.Caveat { return ptr(resset.ActionRead) },
-	2:  func() macaroon.Caveat { return &macaroon.ValidityWindow{NotBefore: 0, NotAfter: 1 << 40} },
-	3:  func() macaroon.Caveat { return ptr(auth.FlyioUserID(7)) },
-	4:  func() macaroon.Caveat { return ptr(auth.GitHubUserID(9)) },
-	5:  func() macaroon.Caveat { return &resset.IfPresent{Ifs: macaroon.NewCaveatSet(ptr(auth.FlyioUserID(7))), Else: resset.ActionAll} },
-	6:  func() macaroon.Caveat { return &resset.IfPresent{Ifs: macaroon.NewCaveatSet(ptr(resset.ActionRead)), Else: resset.ActionRead} },
-	7:  func() macaroon.Caveat { return &flyio.Apps{Apps: resset.ResourceSet[uint64, resset.Action]{5: resset.ActionRead, 9: resset.ActionAll}} },
-	8:  func() macaroon.Caveat { return &auth.ConfineUser{ID: 77} },
-	9:  func() macaroon.Caveat { return (*auth.GoogleUserID)(big.NewInt(123456789)) },
+	0: func() macaroon.Caveat { return &flyio.Organization{ID: 1, Mask: resset.ActionAll} },
+	1: func() macaroon.Caveat { return ptr(resset.ActionRead) },
+	2: func() macaroon.Caveat { return &macaroon.ValidityWindow{NotBefore: 0, NotAfter: 1 << 40} },
+	3: func() macaroon.Caveat { return ptr(auth.FlyioUserID(7)) },
+	4: func() macaroon.Caveat { return ptr(auth.GitHubUserID(9)) },
+	5: func() macaroon.Caveat {
+		return &resset.IfPresent{Ifs: macaroon.NewCaveatSet(ptr(auth.FlyioUserID(7))), Else: resset.ActionAll}
+	},
+	6: func() macaroon.Caveat {
+		return &resset.IfPresent{Ifs: macaroon.NewCaveatSet(ptr(resset.ActionRead)), Else: resset.ActionRead}
+	},
+	7: func() macaroon.Caveat {
+		return &flyio.Apps{Apps: resset.ResourceSet[uint64, resset.Action]{5: resset.ActionRead, 9: resset.ActionAll}}
+	},
+	8: func() macaroon.Caveat { return &auth.ConfineUser{ID: 77} },
+	9: func() macaroon.Caveat { return (*auth.GoogleUserID)(big.NewInt(123456789)) },
 	10: func() macaroon.Caveat {
 		return &resset.IfPresent{Ifs: macaroon.NewCaveatSet(&resset.IfPresent{Ifs: macaroon.NewCaveatSet(ptr(auth.GitHubUserID(9))), Else: 0}), Else: 0}
 	},
@@ -52,7 +58,7 @@ var Table = []func() macaroon.Caveat{
 	14: func() macaroon.Caveat { return &flyio.IsUser{ID: 5} },
 	15: func() macaroon.Caveat { return ptr(auth.MaxValidity(3600)) },
 	// different types whose BODIES encode identically (dedup must key on type + body)
-	18: func() macaroon.Caveat { return ptr(flyio.AllowedRoles(1)) },    // body 01, like 1 (Action r)
+	18: func() macaroon.Caveat { return ptr(flyio.AllowedRoles(1)) },        // body 01, like 1 (Action r)
 	19: func() macaroon.Caveat { return &auth.ConfineOrganization{ID: 77} }, // body 91 4d, like 8 (ConfineUser 77)
 	// wrappers in which a clean nested wrapper comes BEFORE the attestation
 	16: func() macaroon.Caveat {
@@ -141,18 +147,18 @@ type Trust struct {
 }
 
 type Op struct {
-	Kind           string
-	S, K, I, J     uint64 // slot, key, indices
-	Dst, Src, Loc  uint64
-	Pos, V         uint64
-	Kid            []byte
-	Proof, Direct  bool
-	B              bool
-	Adds           []ACav
-	Ds             []D
-	Slots          []uint64
-	Tr             []Trust
-	X              *TailX
+	Kind          string
+	S, K, I, J    uint64 // slot, key, indices
+	Dst, Src, Loc uint64
+	Pos, V        uint64
+	Kid           []byte
+	Proof, Direct bool
+	B             bool
+	Adds          []ACav
+	Ds            []D
+	Slots         []uint64
+	Tr            []Trust
+	X             *TailX
 }
 
 func (o Op) Coq() string {
@@ -383,6 +389,13 @@ func (e *Env) Step(o Op) []int64 {
 		m, ok := e.Slots[o.S]
 		if !ok {
 			return nil
+		}
+		if len(o.Adds) == 1 && o.Adds[0].Is3P {
+			// a lone third-party caveat goes through the Add3P helper (the other public way to add one)
+			a := o.Adds[0]
+			err := m.Add3P(e.Key(a.EncKey), LocStr(a.Loc), cavs(a.TCavs)...)
+			noteSeals(m)
+			return []int64{b2i(err == nil)}
 		}
 		var cs []macaroon.Caveat
 		for _, a := range o.Adds {
